@@ -157,7 +157,7 @@ PROPS = {
         'technique': 'Verus contracts on cfg_layer/cfg_layer_opt/cfg_layer_bool_flag and on Builder::build against the strategy\'s own precondition cfg_ok',
         'level_text': 'The three layering functions return the CLI value if given, else the file value, else the default, for every type and value. Builder::build returns Ok only for configurations satisfying cfg_ok - textually the precondition under which unit core_strategy proves that probe_data never reaches unimplemented!() and unit core_state proves ttl-1 indexing safe - accepts every such configuration, and reports everything else as Error::BadConfig.',
         'level_note': 'NOT covered (not applicable within C16): that each of the ~90 options in TrippyConfig::build_config is wired to the right (args.X, file.X, DEFAULT_X) triple - clap/serde generated types, anyhow, strings. Trusted: Tracer::new -> TracerInner -> make_strategy_config copy the builder fields unchanged (field-by-field copies, not under contract).',
-        'units': ['tui_layer', 'core_builder', 'core_strategy'],
+        'units': ['tui_layer', 'core_builder', 'core_strategy', 'core_net_build'],
         'assumptions': [],
         'not_applicable_parts': ['option wiring in TrippyConfig::build_config'],
         'explanation': 'option precedence and builder validation',
@@ -246,7 +246,7 @@ PROPS = {
         'technique': 'Verus contracts on run (loop invariant on the round counter), finished, do_send, send_request (TCP re-issue loop with invariant and decreases), fail_probe, reissue_probe',
         'level_text': 'finished is exactly round >= n; run\'s loop invariant keeps round <= n and success is returned only with round == n, every round increment being one publish_trace+advance_round (update_round contract), i.e. rounds 0..n-1; do_send turns Error::ProbeFailed into Ok with exactly that slot Failed and returns every other error unchanged; the TCP AddressInUse loop marks the abandoned slot Skipped and re-issues with the next sequence and the same ttl, and terminates (decreases 512 - round size); errors propagate through `?`.',
         'level_note': 'Partial correctness: termination of run depends on wall time (exec_allows_no_decreases_clause). ErrorMapper::{in_progress, addr_in_use, probe_failed} are proved by the loop-free Kani harness k_error_mapper_tables over every errno 1..=133. Not covered: TracerInner::run/handle_error writing the error through parking_lot::RwLock.',
-        'units': ['core_strategy'],
+        'units': ['core_strategy', 'core_net_build'],
         'kani': {'quick': ['k_error_mapper_tables']},
         'assumptions': ['the usize round counter does not overflow (assume in Strategy::run)'],
         'explanation': 'termination and failure semantics',
